@@ -146,4 +146,24 @@ CHECKS = {
         "min_obs": {"replays": 40, "cache_ops": 10000, "history_ops": 2000},
         "timeout": {"quick": 1200, "thorough": 14000},
     },
+    "C07": {
+        "scenarios": [("C07-registry", "vsim"), ("C07-hook", "vsim"), ("C07-e2e", "vsim"), ("C07-reload", "vreal"), ("C07-reload", "vrace", 0.3), ("C01-tcp", "vsim", 0.5), ("C02-udp", "vsim", 0.5)],
+        "rides_on": ["C07"],
+        "races": True,
+        "rule": "(a) registry histories of 400 operations: Discover with segments crafted by the reference codec for every "
+                "(authenticating credential, hinted name) combination incl. foreign and unregistered ones, shared credentials, 64-byte "
+                "names, names colliding on the 4-byte hint, IPv4/IPv4-mapped/IPv6/random/absent sources, Record, virtual time steps up "
+                "to 20 min, reloads (remove user, change password, swap credentials, reorder ids, empty or unusable list), hint-"
+                "mandatory toggles; each answer compared with a model written from the statement; (b) Discover racing SetUsers with "
+                "call/return instants: an answer must be valid for a generation current during the call; (c) the user of every "
+                "accepted session in multi-user C01/C02 runs; distinct = hash of case parameters",
+        "technique": "runtime monitor: reference attribution model over registry call histories (real-time order for reload races), "
+                     "race detector, user name of every accepted session",
+        "text": "Accept/reject and the attributed user are compared with the model on every discovery; reload races are judged by "
+                "real-time order of call/return events at the exported boundary.",
+        "note": "trusted: reference key derivation and hint computation, the attribution model, monotonic clock for call/return order",
+        "design_ref": "DESIGN.md section 4, C07",
+        "min_obs": {"discoveries": 10000, "accepted": 2000, "reload_calls": 500},
+        "timeout": {"quick": 1200, "thorough": 14000},
+    },
 }
